@@ -32,6 +32,10 @@ parts F, G, H  (bounded/c15_ext.py) F: Selector / ObjectSelector / ListSelector 
         mutation of the earlier results / of the objects rebuilt from them (every container-valued state, class
         and instance level, default equal to / different from the state, both apis, subset=); H: parameters of
         different types whose states serialize to the same text, round-tripped one after the other;
+part I  (bounded/c15_hist.py) multi-step histories on an INSTANCE that never set the parameter: it acquires its
+        own per-instance Parameter object (inst.param[name], inst.param.<name>, serialize_value, ...), the
+        class-level value changes (P.x = new, P.param.update, ...), then the instance is serialised (with and
+        without subset=, serialize_value): the text must carry the value the instance actually shows;
 part D  (thorough; a seed-chosen slice in quick) pseudo-random floats, ints, strings, datetimes,
         dates and date ranges -- this also tests the assumed codecs (json float repr,
         strftime/strptime for the two literal formats).
@@ -57,6 +61,7 @@ import sys
 
 from bounded._api import Bounded, REPLAY_HEADER
 from bounded import c15_ext
+from bounded import c15_hist
 
 # --------------------------------------------------------------------------------------------
 # The checking core.  It is kept as source text: the layer exec()s it and every replay script
@@ -109,8 +114,11 @@ def mismatch(name, want, got):
                                                       got, type(got).__name__))
 
 
-def roundtrip(cls, values, level, api, ser_subset=None, de_subset=None, universe=None):
+def roundtrip(cls, values, level, api, ser_subset=None, de_subset=None, universe=None, history=None):
     """Drive the real param code once; return None or (kind, detail).
+
+    history  statements executed after the source object exists and before it is serialised (names `src`,
+             `cls`, `param`, `dt` in scope): the state under test is then whatever `src` SHOWS afterwards
 
     cls      a Parameterized class whose defaults are the state under test (level 'class'), or
              whose instance built with **values is (levels 'instance', 'inst->class')
@@ -119,6 +127,12 @@ def roundtrip(cls, values, level, api, ser_subset=None, de_subset=None, universe
     stage = 'construct-source'
     try:
         src = cls if level == 'class' else cls(**values)
+        if history:
+            stage = 'history'
+            hns = {'src': src, 'cls': cls, 'param': param, 'dt': dt}
+            for stmt in history:
+                exec(stmt, hns)
+            stage = 'construct-source'
         ser = src.param
         de = cls.param if level in ('class', 'inst->class') else src.param
         names = [n for n in cls.param if n != 'name'] if universe is None else list(universe)
@@ -361,7 +375,7 @@ logging.disable(logging.CRITICAL)
 {cls}
 values = {values}
 res = roundtrip(C15Case, values, level={level!r}, api={api!r}, ser_subset={ss!r}, de_subset={ds!r},
-                universe={universe!r})
+                universe={universe!r}, history={history!r})
 if res is not None:
     print('REPRODUCED: %s -- %s' % res)
     sys.exit(1)
@@ -370,11 +384,11 @@ sys.exit(0)
 '''
 
 
-def make_replay(clause, witness, decls, values_src, level, api, ss=None, ds=None, universe=None):
+def make_replay(clause, witness, decls, values_src, level, api, ss=None, ds=None, universe=None, history=None):
     head = REPLAY_HEADER.format(prop="C15", name="replay_c15.py", clause=clause, witness=witness)
     vals = "{" + ", ".join("%r: %s" % (k, s) for k, s in values_src.items()) + "}"
     return head + REPLAY_BODY.format(core=CORE_SRC, cls=class_src(decls), values=vals, level=level,
-                                     api=api, ss=ss, ds=ds, universe=universe)
+                                     api=api, ss=ss, ds=ds, universe=universe, history=history)
 
 
 LEVELS = ("class", "instance", "inst->class")
@@ -784,6 +798,9 @@ def _run(tier, seed):
     # (last: they change deserialized results in place, which must not disturb the parts above when the
     # library under test wrongly shares them)
     c15_ext.run_ext(B, tier, seed, sys.modules[__name__])
+
+    # ---------------------------------------------------------------- part I (bounded/c15_hist.py)
+    c15_hist.run_hist(B, tier, seed, sys.modules[__name__])
 
     # notes are de-duplicated
     B.notes = sorted(set(B.notes))
